@@ -2,6 +2,9 @@
    watermark handling of the pass-through nodes (filter.go, map.go, unnest.go) and pipelines of them with
    the table valued functions of Model/TVF.v.  Executable only. *)
 From Octo Require Export Changelog TVF.
+(* Limit, Distinct and OrderSensitiveTransform: the exact models of Model/Operators.v (tied by engine c15 too) are
+   used as they are, qualified, so that the two developments' names stay apart *)
+From Octo Require Operators.
 
 (* ---- RecordEventTimeBuffer: google/btree keyed by EventTime.Before, one item per instant holding a
    FIFO slice.  Abstractly: an association list sorted by strictly increasing instant. ---- *)
@@ -127,7 +130,13 @@ Inductive c18_node :=
 | NMap (idxs : list nat)
 | NUnnest (idx : nat)
 | NTumble (len off : Z) (idx : nat)
-| NMdw (md res : Z) (idx : nat).
+| NMdw (md res : Z) (idx : nat)
+| NLimit (n : Z)                                                   (* forwards everything until its n-th record *)
+| NDistinct                                                        (* swallows watermarks *)
+| NOrderBy (ks : list (bool * nat)) (limit : option Z) (noretr : bool).   (* emits only at end of stream *)
+
+Definition order_keys (ks : list (bool * nat)) : Operators.okeys :=
+  Operators.okeys_of (map (fun k : bool * nat => (fst k, Operators.EVar (snd k))) ks).
 
 Definition run_node (n : c18_node) (inp : list event) : outcome (list event) :=
   match n with
@@ -137,6 +146,9 @@ Definition run_node (n : c18_node) (inp : list event) : outcome (list event) :=
   | NUnnest idx => per_record (unnest_rec idx) inp
   | NTumble len off idx => tumble_run len off idx inp
   | NMdw md res idx => mdw_run md res idx inp
+  | NLimit n => Ok (Operators.run_limit n inp)
+  | NDistinct => Ok (Operators.run_distinct inp)
+  | NOrderBy ks limit noretr => Operators.run_ost (order_keys ks) limit noretr inp
   end.
 
 (* source first, then each node wrapping the previous one *)
@@ -176,12 +188,56 @@ Definition buffer_spec (inp out : list event) : bool :=
   (negb (well_timed inp) ||
    recs_eqb (filter nonzero_time (records out)) (et_sort (filter nonzero_time (records inp)))).
 
+(* ---- the three recorded finding classes of findings/C18.txt, decided from the inputs alone ---- *)
+Inductive c18_op :=
+| OpJoin (kind : Z)                                 (* 0 StreamJoin, 1 left, 2 right, 3 full OuterJoin; key = column 0 *)
+| OpGroupBy (time_keyed fires_at_end : bool).       (* time key = column 1; trigger set has a counting / end-of-stream trigger *)
+
+Definition join_key (r : rec) : option value :=
+  match vals r with
+  | VNull :: _ => None
+  | v :: _ => Some v
+  | [] => None
+  end.
+(* equal NULL-free join keys *)
+Definition same_join_key (a b : rec) : bool :=
+  match join_key a, join_key b with Some x, Some y => vcompare x y =? 0 | _, _ => false end.
+Definition no_event_time (r : rec) : bool := et r =? zero_ns.
+Definition pairs_exist (f : rec -> rec -> bool) (L R : list rec) : bool :=
+  existsb (fun a => existsb (fun b => same_join_key a b && f a b) R) L.
+
+(* class 1, join-zero-time-record-meets-timed-record *)
+Definition class_zero_time (L R : list rec) : bool :=
+  pairs_exist (fun a b => xorb (no_event_time a) (no_event_time b)) L R.
+(* class 2, outer-join-padded-row-retracted-or-restored-later *)
+Definition outer_left (kind : Z) : bool := (kind =? 1) || (kind =? 3).
+Definition outer_right (kind : Z) : bool := (kind =? 2) || (kind =? 3).
+Definition class_padded_row (kind : Z) (L R : list rec) : bool :=
+  pairs_exist (fun a b => (negb (et a =? et b) || retr a || retr b) &&
+                          ((outer_left kind && negb (no_event_time a)) || (outer_right kind && negb (no_event_time b)))) L R.
+(* class 3, group-by-time-keyed-group-fired-at-end-of-stream *)
+Definition class_eos_key (time_keyed fires_at_end : bool) (inp : list event) : bool :=
+  time_keyed && fires_at_end &&
+  match rev (watermarks inp) with
+  | [] => false
+  | w :: _ => existsb (fun r => match nth_error (vals r) 1 with Some (VTime t _) => t <=? w | _ => false end) (records inp)
+  end.
+
+Definition c18_class (op : c18_op) (inputs : list (list event)) : Z :=
+  match op, inputs with
+  | OpJoin kind, [l; r] =>
+      if class_zero_time (records l) (records r) then 1
+      else if class_padded_row kind (records l) (records r) then 2 else 0
+  | OpGroupBy tk fe, [inp] => if class_eos_key tk fe inp then 3 else 0
+  | _, _ => 0
+  end.
+
 Inductive c18_source :=
 | SScript (inp : list event)
 | SPoll (nows : list Z) (srcs : list (list event))
 (* oracle-only cases: the inputs of an operator that is modelled elsewhere (StreamJoin and OuterJoin: C19;
    the group-by with triggers: C16/C17); only the C18 oracle is applied to what the operator emitted *)
-| SInputs (inputs : list (list event)).
+| SInputs (op : c18_op) (tag : Z) (inputs : list (list event)).   (* tag: the finding class the engine put the case in *)
 
 (* source, nodes, kind, observed output *)
 Definition c18_case : Type := c18_source * list c18_node * Z * list event.
@@ -190,13 +246,13 @@ Definition source_events (s : c18_source) : list event :=
   match s with
   | SScript inp => inp
   | SPoll nows srcs => poll_run (clock_of nows) 0 srcs
-  | SInputs _ => []
+  | SInputs _ _ _ => []
   end.
 Definition source_events_pinned (s : c18_source) : list event :=
   match s with
   | SScript inp => inp
   | SPoll nows srcs => poll_run_pinned (clock_of nows) 0 srcs
-  | SInputs _ => []
+  | SInputs _ _ _ => []
   end.
 (* poll ends with the source's error, which every node hands on *)
 Definition source_fails (s : c18_source) : bool := match s with SPoll _ _ => true | _ => false end.
@@ -213,18 +269,18 @@ Definition c18_tie (c : c18_case) : bool :=
       | Err _ => kind =? 1
       | Panic _ => kind =? 2
       end
-  | SInputs _ => true
+  | SInputs op tag inputs => c18_class op inputs =? tag     (* the engine's class tag is the Coq predicate's verdict *)
   end.
 
 Definition source_ok (s : c18_source) : bool :=
   match s with
   | SScript inp => well_timed inp
   | SPoll nows srcs => forallb no_wms srcs && strictly_increasing_from zero_ns nows
-  | SInputs inputs => forallb well_timed inputs
+  | SInputs _ _ inputs => forallb well_timed inputs
   end.
 Definition source_monotone (s : c18_source) : bool :=
   match s with
-  | SInputs inputs => forallb monotone inputs
+  | SInputs _ _ inputs => forallb monotone inputs
   | _ => monotone (source_events s)
   end.
 
